@@ -6,7 +6,7 @@ patch=$1; props=$2
 d=$(mktemp -d /tmp/tp.XXXXXX)
 rsync -a --exclude .git /repo/ "$d/"
 if ! patch -s -p1 -d "$d" < "$patch" >/dev/null 2>&1; then echo "== $patch: does not apply"; rm -rf "$d"; exit 2; fi
-out=$(/verif/bin/drandcheck sweep -repo "$d" -verif /verif ${props:+-props $props} 2>&1)
+out=$(${DRANDCHECK_BIN:-/verif/bin/drandcheck} sweep -repo "$d" -verif /verif ${props:+-props $props} 2>&1)
 rc=$?
 # per property: count and the rules that fired
 summary=$(echo "$out" | awk '/^\[/{p=$1; next} /^  (violated|undecided) /{r[p]=r[p] (index(r[p],$2)?"":$2",")} /^NONDISCHARGED [1-9]/{n[p]=$2} END{for(p in n){sub(/,$/,"",r[p]); printf "%s=%s(%s) ", p, n[p], r[p]}}' | tr ' ' '\n' | sort | tr '\n' ' ')
